@@ -307,6 +307,10 @@ theorem modLoop_one {env : Env} {m : W} (h : modOK env m = true) (r : List Tok) 
   · rename_i v q k heq
     have : wordDisplay v q = some m := by simpa using h
     rw [heq]; simp [modLoop, this]
+  · rename_i s heq
+    have : sqSpell s = m := by simpa using h
+    subst this
+    rw [heq]; simp [modLoop]
   · simp at h
 
 theorem modLoop_mods {env : Env} : ∀ (mods : List W) (R : List Tok), mods ≠ [] → mods.all (modOK env) = true →
